@@ -224,10 +224,15 @@ func (e *Exec) scanCallMods(fn *ssa.Function, c *ssa.CallCommon, ms *modSet, see
 											ms.comps[name] = arraySort(SInt, arraySort(SInt, s))
 										}
 									}
+								case "vcModGhostAll":
+									if cst, ok := cc.Call.Args[0].(*ssa.Const); ok {
+										gn := constantString(cst)
+										ms.comps["G."+gn] = arraySort(e.ghostIdxOf(gn), e.ghostSortOf(gn))
+									}
 								case "vcModGhost":
 									if cst, ok := cc.Call.Args[0].(*ssa.Const); ok {
 										gn := constantString(cst)
-										ms.comps["G."+gn] = arraySort(SInt, e.ghostSortOf(gn))
+										ms.comps["G."+gn] = arraySort(e.ghostIdxOf(gn), e.ghostSortOf(gn))
 									}
 								case "vcModMap":
 									mc := e.mapComps(cc.Call.Args[0].Type().Underlying().(*types.Map))
@@ -290,7 +295,7 @@ func (e *Exec) scanCallMods(fn *ssa.Function, c *ssa.CallCommon, ms *modSet, see
 
 func isIntrinsic(nm string) bool {
 	switch nm {
-	case "specAssert", "specAssume", "vcForall", "vcExists", "vcTrigger1", "vcTrigger2", "vcTrigger3", "vcOldBegin", "vcOld", "vcMod1", "vcModElems", "vcModMap", "vcFresh", "vcByteStr", "vcModGhost", "vcSameSlice", "vcElemsOf", "vcOff", "vcSeqAt", "vcIte", "vcMapSeq", "vcHas", "vcIn", "vcSameMap":
+	case "specAssert", "specAssume", "vcForall", "vcExists", "vcTrigger1", "vcTrigger2", "vcTrigger3", "vcOldBegin", "vcOld", "vcMod1", "vcModElems", "vcModMap", "vcFresh", "vcByteStr", "vcModGhost", "vcModGhostAll", "vcSameSlice", "vcElemsOf", "vcOff", "vcSeqAt", "vcIte", "vcMapSeq", "vcHas", "vcIn", "vcSameMap":
 		return true
 	}
 	return false
@@ -619,4 +624,21 @@ func (e *Exec) loopExit(fr *frame, st *State, li *loopInfo, c *Contract) {
 			e.assume(st, g)
 		}
 	}
+}
+
+func (e *Exec) ghostIdxOf(name string) string {
+	if s, ok := e.ghostIdx[name]; ok {
+		return s
+	}
+	for _, pk := range e.w.Pkgs {
+		if pk.SSA == nil {
+			continue
+		}
+		if fn := pk.SSA.Func(name); fn != nil && fn.Signature.Params().Len() > 0 {
+			s := e.ti.sortOf(fn.Signature.Params().At(0).Type())
+			e.ghostIdx[name] = s
+			return s
+		}
+	}
+	return SInt
 }
